@@ -8,7 +8,7 @@ TRUST = ("Runs in two element configurations where applicable (tracked element w
 
 CHECKS = {
  "C01": ("model_checking", "explicit-state BFS of the real code to a fixpoint vs. reference model",
-         "Every (reachable memory-image state, mutator, argument) triple for capacities 0..=5 (quick) / 0..=8 (thorough) is executed on a freshly rebuilt real buffer and its return value and resulting contents (len/is_empty/is_full/iter/get/as_slices) compared with a Vec-based deque model; the search runs to a fixpoint, so by induction all finite histories over the alphabet are covered for those capacities.", "§4 C01"),
+         "Every (reachable memory-image state, mutator, argument) triple for capacities 0..=5 (quick) / 0..=8 (thorough) is executed on a freshly rebuilt real buffer and its return value and resulting contents (len/is_empty/is_full/iter/get/as_slices) compared with a Vec-based deque model; the search runs to a fixpoint, so by induction all finite histories over the alphabet are covered for those capacities. Extension capacities 16/33 (all layouts) and 260 (boundary grid of layouts x boundary-value alphabet, not a fixpoint); iterator arguments with every size_hint shape incl. incorrect ones (contents then unspecified).", "§4 C01"),
  "C02": ("model_checking", "explicit-state BFS; identity oracle on push/try_push",
          "All layouts x {push_back, push_front, try_push_back, try_push_front} for capacities 0..=5/0..=8 with identity-carrying elements: the returned element is the displaced/own element, Err iff full, memory image unchanged on Err, nothing destroyed inside the call.", "§4 C02"),
  "C03": ("model_checking", "explicit-state BFS + exhaustive consumption scripts; element-ledger oracle",
@@ -24,16 +24,16 @@ CHECKS = {
  "C16": ("model_checking", "differential exploration: every (state, I/O action) through std::io and through embedded-io(-async), three feature builds",
          "From every state of C14's fixpoint space every I/O action is run through std::io and through the embedded trait families compiled into the build ({embedded-io}, {embedded-io-async}, {both}); returned values, contents and memory image must be identical, results Ok, async futures Ready on the first poll. A configuration that does not build is reported as a violation.", "§4 C16"),
  "C17": ("model_checking", "explicit-state BFS with an allocation monitor, per feature configuration",
-         "The C01 transition relation plus all observers, executed under a counting global allocator in three builds (no features, alloc, std): zero allocations inside any non-panicking crate call except boxed()/to_vec(); the byte-I/O impls incl. read_exact/write_all likewise; a #![no_std] static library without an allocator is linked against the no-feature build.", "§4 C17"),
+         "The C01 transition relation plus all observers, executed under a counting global allocator in three builds (no features, alloc, std): zero allocations inside any non-panicking crate call except boxed()/to_vec(); the byte-I/O impls incl. read_exact/write_all likewise; a #![no_std] static library without an allocator is linked against the no-feature build. A fourth build runs the 128-byte over-aligned element (std); capacity 72 over every layout and 260 over a boundary grid with a boundary-value alphabet.", "§4 C17"),
  "C18": ("model_checking", "differential transcript of complete case spaces between nightly/default and nightly/unstable builds",
          "The nightly/default build enumerates histories (BFS) and writes one transcript line per (history, action, fault point) over the C01-C12 alphabets incl. the fault spaces; the nightly/unstable build replays the same histories; transcripts must be identical case by case. The same is done for the other element types: the byte-buffer space through std::io (every layout x I/O alphabet, provided methods, Extend<&u8>, push/pop, hash, each with a follow-up battery), the zero-sized twin (every layout x its operations x every clone/destructor fault point) and zero-sized elements at the 12 extreme capacities of C19 (all sequences of depth 2; depth 3 over the reduced alphabet in thorough). stable/default is a toolchain-drift control.", "§4 C18"),
  "C19": ("model_checking", "exhaustive depth-bounded enumeration of action sequences (no state merging) at extreme capacities with a ZST",
          "12 capacities incl. usize::MAX and neighbours of 2^63/2^32, drop-counting ZST, all sequences of depth 3/4(/5 reduced) after front-positioning prefixes near 0 and near N: no overflow/div-by-zero/bounds panic, len/returns/is_full/live count = model; overflow checks on and off (thorough).", "§4 C19"),
  "C20": ("model_checking", "explicit-state BFS with a relocation monitor",
-         "Every listed O(1) operation, remove and drain from every reachable state for capacities up to 8: number of surviving elements whose address changes is within the documented bound; make_contiguous relocates nothing when already contiguous.", "§4 C20"),
+         "Every listed O(1) operation, remove and drain from every reachable state for capacities up to 8: number of surviving elements whose address changes is within the documented bound; make_contiguous relocates nothing when already contiguous. Also capacity 72 (every layout) and 260 (boundary grid) with a boundary-value alphabet.", "§4 C20"),
 
  "C04": ("model_checking", "explicit-state BFS with convergence differential + exhaustive planted-garbage non-interference runs",
-         "For every physical layout the unoccupied slots are overwritten with every planted filling (patterns, ids of destroyed elements, ids of live elements held elsewhere, copies of in-buffer elements) and the full alphabet is executed: outcomes identical across fillings and across layouts of equal contents, no ledger event on a non-live element; plus a fine-key BFS where every convergence of two histories on one memory image is checked for equal futures.", "§4 C04"),
+         "For every physical layout the unoccupied slots are overwritten with every planted filling (patterns, ids of destroyed elements, ids of live elements held elsewhere, copies of in-buffer elements) and the full alphabet is executed: outcomes identical across fillings and across layouts of equal contents, no ledger event on a non-live element; plus a fine-key BFS where every convergence of two histories on one memory image is checked for equal futures and every transition is judged for ownership (nothing presented that is held by the caller or destroyed); constructors for every source length and size_hint shape (incl. incorrect hints) must present live, distinct elements only.", "§4 C04"),
  "C05": ("fault_enumeration", "exhaustive 1-deviation fault enumeration (k-th destructor call panics) on the real code",
          "For every reachable layout, every element-destroying operation and argument, and every k, the k-th destructor call inside the operation panics once; afterwards: no destructor ran twice, the buffer is a valid sequence of live distinct elements, a follow-up battery matches the model seeded from the observed contents, and the final drop destroys nothing twice. Leaks tolerated.", "§4 C05"),
  "C06": ("fault_enumeration", "exhaustive 1-deviation fault enumeration (k-th clone/closure/iterator/comparison call panics)",
